@@ -53,6 +53,11 @@ impl<I: ConnectSyscall> ConnectSyscall for NioConnectSyscall<I> {
                 reset_errno();
                 break;
             }
+            if !blocking {
+                // the caller made the descriptor non-blocking: report the kernel's answer
+                // (EINPROGRESS) instead of waiting for the connection
+                break;
+            }
             let errno = Error::last_os_error().raw_os_error();
             if errno == Some(libc::EINPROGRESS) || errno == Some(libc::EALREADY) || errno == Some(libc::EWOULDBLOCK) {
                 //阻塞，直到写事件发生
